@@ -442,7 +442,7 @@ def k_ref_unknown(f, rng):
     got = _plant_ref(f, rng, name)
     if not got:
         return None
-    e = Exp(r"There is no survey element with this name|no survey element named", "name", name=name.lower() if got[0] == "parameters-seed" else name)
+    e = Exp(r"There is no survey element with this name|no survey element named", "name", name=name)
     e.column = got[0]
     return e
 
